@@ -142,6 +142,8 @@ class Exec(object):
             if v.py in ('int',): return v.z != 0
             if v.py == 'float': return v.z != 0
             if v.py == 'str': return z3.Length(v.z) > 0
+            if v.py == 'val':       # a dynamically typed value: 0, 0.0, '' and None are false
+                return z3.Or(z3.And(Val.is_VI(v.z), Val.vi(v.z) != 0), z3.And(Val.is_VR(v.z), Val.vr(v.z) != 0), z3.And(Val.is_VS(v.z), z3.Length(Val.vs(v.z)) > 0))
         if isinstance(v, NoneV): return z3.BoolVal(False)
         if isinstance(v, Opt): return z3.And(z3.Not(v.isnone), self.truth(v.val, st))
         if isinstance(v, PyStr): return z3.BoolVal(len(v.s) > 0)
@@ -516,25 +518,29 @@ class ExprMixin(object):
                         return [(Sc(z3.If(t, b.z, a.z) if isand else z3.If(t, a.z, b.z), a.py), s_b)]
             except Unsupported: pass
         out = []
-        def go(i, s_eval, acc, guard):
+        def go(i, real, s_eval, acc, guard):
             n0 = len(s_eval.pc)
-            for v, s2 in self.ev(n.values[i], s_eval):
+            res = self.ev(n.values[i], s_eval)
+            for v, s2 in res:
+                # an operand that forks (d.get(k, default), an optional value ...) splits the path: each outcome continues in its own copy of
+                # the real state -- merging the facts of alternative outcomes into one state would make it contradictory
+                real_b = real if len(res) == 1 else real.copy()
                 for fact in s2.pc[n0:]:
-                    st.pc.append(z3.Implies(z3.And(*guard), fact) if guard else fact)
+                    real_b.pc.append(z3.Implies(z3.And(*guard), fact) if guard else fact)
                 t = self.truth(v, s2)
                 if i == len(n.values) - 1:
-                    out.append((Sc(z3.And(*(acc + [t])) if isand else z3.Or(*(acc + [t])), 'bool'), st)); continue
+                    out.append((Sc(z3.And(*(acc + [t])) if isand else z3.Or(*(acc + [t])), 'bool'), real_b)); continue
                 ts = z3.simplify(t)
                 if (isand and z3.is_false(ts)) or (not isand and z3.is_true(ts)):
-                    out.append((Sc(z3.BoolVal(not isand), 'bool'), st)); continue      # short circuit decided here
+                    out.append((Sc(z3.BoolVal(not isand), 'bool'), real_b)); continue      # short circuit decided here
                 s3 = s2.copy()
                 c = t if isand else z3.Not(t)
                 s3.pc.append(c)
                 if not self.feasible(s3):
-                    out.append((Sc(z3.And(*(acc + [t])) if isand else z3.Or(*(acc + [t])), 'bool'), st)); continue
+                    out.append((Sc(z3.And(*(acc + [t])) if isand else z3.Or(*(acc + [t])), 'bool'), real_b)); continue
                 self.refine_optional(n.values[i], s3, isand)
-                go(i + 1, s3, acc + [t], guard + [c])
-        go(0, st.copy(), [], [])
+                go(i + 1, real_b, s3, acc + [t], guard + [c])
+        go(0, st, st.copy(), [], [])
         return out
 
     def ev_Compare(self, n, st):
@@ -1791,7 +1797,17 @@ class CallMixin(object):
         fi = dyn[0].find_method(dyn[1], n.func.attr, after=after)
         if fi is None:
             if n.func.attr == '__init__': return [(NONE, st)]
-            raise Unsupported('super().%s not found' % n.func.attr)
+            # the method of a library base class: its assumed contract '<ext>' '<sidecar class>.super.<method>'; a **kwargs argument is passed on as such
+            c_sup = self.reg.get('<ext>', '%s.super.%s' % (sd.cls, n.func.attr)) if isinstance(sd, (Obj, Rec)) else None
+            if c_sup is None: raise Unsupported('super().%s not found' % n.func.attr)
+            out = []
+            for args, s2 in self._ev_list(n.args, st):
+                kws = [k for k in n.keywords if k.arg is not None]; splat = [k for k in n.keywords if k.arg is None]
+                for vals, s3 in self._ev_list([k.value for k in kws] + [k.value for k in splat], s2):
+                    kw_ = dict(zip([k.arg for k in kws], vals[:len(kws)]))
+                    if splat: kw_['kwargs'] = vals[len(kws)]
+                    out.extend(self.call_contract(c_sup, None, [selfv] + args, kw_, s3, n))
+            return out
         out = []
         for args, s2 in self._ev_list(n.args, st):
             for vals, s3 in self._ev_list([k.value for k in n.keywords], s2):
@@ -2463,7 +2479,8 @@ class CallMixin(object):
                     else: raise Unsupported('missing argument %s of %s' % (nm, c.qualname))
             self.reg.assume('external contract assumed: %s (%s)' % (c.qualname, c.note or 'see contracts/ext_*.py'))
         else:
-            fnames = [a.arg for a in fi.node.args.args] + ([fi.node.args.vararg.arg] if fi.node.args.vararg else [])
+            fnames = [a.arg for a in fi.node.args.args] + ([fi.node.args.vararg.arg] if fi.node.args.vararg else []) + ([fi.node.args.kwarg.arg] if fi.node.args.kwarg else [])
+            if fi.node.args.kwarg and fi.node.args.kwarg.arg not in names: fnames = fnames[:-1]      # (a **kwargs parameter the contract does not speak about: callers in the handled subset pass none)
             if names != fnames:
                 raise ContractMismatch('%s::%s parameters are %s but the contract declares %s' % (fi.file, fi.qualname, fnames, names))
             env = self.bind_params(fi.node, args, kw, st, st)
@@ -2656,6 +2673,16 @@ class CallMixin(object):
             self.raise_exc('SystemExit', st); return []
         if mod == 'logging' and name == 'getLogger':
             return [(Builtin('logger'), st)]
+        if mod == 'collections' and name == 'ChainMap' and len(args) == 2:
+            a_, b_ = self.deref(args[0], st), self.deref(args[1], st)
+            if not (isinstance(a_, SymDict) and isinstance(b_, SymDict)): raise Unsupported('ChainMap(%r, %r)' % (a_, b_))
+            self.reg.assume('A4: collections.ChainMap(a, b)[k] is a[k] when k is a key of a, else b[k]; its keys are those of a and of b')
+            nh, ng = fresh(a_.has.sort(), 'chain.has'), fresh(a_.get.sort(), 'chain.get')
+            kq = z3.Const('k!cm', a_.has.sort().domain())
+            st.pc.append(z3.ForAll([kq], z3.And(z3.Select(nh, kq) == z3.Or(z3.Select(a_.has, kq), z3.Select(b_.has, kq)),
+                                                z3.Select(ng, kq) == z3.If(z3.Select(a_.has, kq), z3.Select(a_.get, kq), z3.Select(b_.get, kq))),
+                                   patterns=[z3.Select(nh, kq), z3.Select(ng, kq)]))
+            return [(SymDict(nh, ng, a_.kty, a_.vty), st)]
         if mod == 'collections' and name == 'OrderedDict' and not args and not kw:
             return [(st.new_cell(PyDict({})), st)]      # (every dict is insertion ordered; whether the order is tracked is the declared type's business: T.ODict)
         if '%s.%s' % (mod, name) == 'itertools.chain.from_iterable' and len(args) == 1:
@@ -2801,7 +2828,8 @@ class Executor(Exec, ExprMixin, StmtMixin, CallMixin):
 
     def run(self):
         c, fi = self.contract, self.fi
-        fnames = [a.arg for a in fi.node.args.args] + ([fi.node.args.vararg.arg] if fi.node.args.vararg else [])
+        fnames = [a.arg for a in fi.node.args.args] + ([fi.node.args.vararg.arg] if fi.node.args.vararg else []) + ([fi.node.args.kwarg.arg] if fi.node.args.kwarg else [])
+        if fi.node.args.kwarg and fi.node.args.kwarg.arg not in c.params: fnames = fnames[:-1]
         if list(c.params) != fnames:
             raise ContractMismatch('%s::%s parameters are %s but the contract declares %s' % (fi.file, fi.qualname, fnames, list(c.params)))
         st = State()
